@@ -14,6 +14,8 @@ from ck import CK
 import keys_c17 as K
 import fuzzgen as FG
 
+# the sanitizer keeps the fatal signals (the interposer's own handler would report a bare 'SIGSEGV' without a stack)
+C17_ENV = dict(SAN_ENV, ASAN_OPTIONS=SAN_ENV['ASAN_OPTIONS'] + ':handle_segv=2:handle_sigbus=2:handle_sigfpe=2:handle_sigill=2')
 SO_PIN = [b'so-pin-tok0', b'so-pin-tok1']; USER_PIN = [b'user-pin-0', b'user-pin-1']
 TIMEOUT = 90
 
@@ -22,7 +24,7 @@ def new_exec(env, d, backend=None, conf=None):
     p = env['paths'][env['cfg']]
     if conf is None: conf = mkconf(d, backend or env['backend'])
     n = len([f for f in os.listdir(d) if f.startswith('stderr')])
-    x = Exec(p['exe'], p['lib'], conf, env['ck'], env=dict(SAN_ENV), stderr=f'{d}/stderr{n}.log', trace=f'{d}/trace{n}.jsonl'); x.timeout = TIMEOUT
+    x = Exec(p['exe'], p['lib'], conf, env['ck'], env=C17_ENV, stderr=f'{d}/stderr{n}.log', trace=f'{d}/trace{n}.jsonl'); x.timeout = TIMEOUT
     return x
 
 def ubsan_class(msg):
@@ -32,6 +34,22 @@ def ubsan_class(msg):
     if 'out of bounds' in m: return 'bounds'
     if 'insufficient space for an object' in m: return 'object-size'
     return None
+
+SKIP_FRAMES = ('__asan', '__interceptor', '__sanitizer', '__ubsan', 'operator', 'std::', '__GI_', '_IO_', 'malloc', 'free', 'mem', 'str', '__pthread_kill', 'pthread_kill', 'raise', 'abort', '__assert', '__cxa', '__gnu_cxx', '_Unwind', 'gsignal', '__libc')
+def death_sig(e):
+    """`<death kind>@<first library frame or assert location>`"""
+    note = e.note or {}; died = str(note.get('died', '')); t = e.stderr_tail or ''
+    if died.startswith('assert:'): return 'assert@' + died[7:].split('/')[-1]
+    m = re.search(r'ERROR: AddressSanitizer: ([\w-]+)', t)
+    kind = 'asan:' + m.group(1) if m else e.kind()
+    if kind == 'asan:ABRT': kind = 'abort'
+    where = '?'; fallback = None
+    for m in re.finditer(r'^\s*#\d+ 0x[0-9a-f]+ in (.*)$', t, re.M):
+        line = m.group(1); f = re.split(r'[\s(]', line, 1)[0]
+        if '/src/lib/' in line and '/main.cpp' not in line and not f.startswith(SKIP_FRAMES): where = f; break     # first frame inside SoftHSM itself
+        if fallback is None and not f.startswith(SKIP_FRAMES) and '/exec/p11x.cpp' not in line: fallback = f
+    if where == '?' and fallback: where = fallback
+    return f'{kind}@{where}'
 
 class Monitor:
     """per-executor oracle: CK_RV validity, UBSan diagnostics attributed to the call that produced them"""
@@ -62,8 +80,10 @@ def clip(o, n=160):
 
 # ------------------------------------------------------------------------------------------------ golden token directories
 GOLDEN_TOK0 = [k for k in K.kinds() if k not in ('ec_p384b:pub', 'ec_p384b:priv', 'ec_p521b:pub', 'ec_p521b:priv', 'ed25519b:priv', 'dh1024b:priv', 'des')]
+GOLDEN_FILE_TOK0 = ['aes128', 'des3', 'generic32', 'rsa1024:pub', 'rsa1024:priv', 'rsa2048:priv', 'ec_p256:pub', 'ec_p256:priv', 'ec_p384:priv', 'ed25519:pub', 'ed25519:priv',
+                    'dsa1024:pub', 'dsa1024:priv', 'dh1024:pub', 'dh1024:priv', 'x509', 'data', 'dsa-params']
 GOLDEN_TOK1 = ['aes128', 'generic32', 'rsa1024:pub', 'rsa1024:priv', 'ec_p256:priv', 'data', 'x509']
-def build_golden(env, d):
+def build_golden(env, d, small=False):
     """two initialised tokens; token 0 holds every object kind as PRIVATE token objects plus public copies of a few,
     token 1 holds a few public objects.  Labels are the kind names."""
     x = new_exec(env, d); ck = env['ck']
@@ -75,10 +95,10 @@ def build_golden(env, d):
         s = ok(x.call('C_OpenSession', slot=slot))['h']
         ok(x.call('C_Login', s=s, user=0, pin=SO_PIN[ti].hex())); ok(x.call('C_InitPIN', s=s, pin=USER_PIN[ti].hex())); ok(x.call('C_Logout', s=s))
         ok(x.call('C_Login', s=s, user=1, pin=USER_PIN[ti].hex()))
-        for kind in (GOLDEN_TOK0 if ti == 0 else GOLDEN_TOK1):
+        for kind in ((GOLDEN_FILE_TOK0 if small else GOLDEN_TOK0) if ti == 0 else (GOLDEN_TOK1[:4] if small else GOLDEN_TOK1)):
             ok(x.call('C_CreateObject', s=s, tmpl=x.T(K.resolve(ck, K.template(kind, token=True, private=(ti == 0), sensitive=(ti == 0 and kind.endswith(':priv')))))))
         if ti == 0:
-            for kind in ('aes256', 'rsa2048:pub', 'ec_p256:pub', 'data', 'x509', 'generic64'):
+            for kind in ('aes256', 'rsa2048:pub', 'ec_p256:pub', 'data', 'x509', 'generic64')[:(3 if small else 6)]:
                 ok(x.call('C_CreateObject', s=s, tmpl=x.T(K.resolve(ck, K.template(kind, label=kind + '/public', token=True, private=False)))))
             # one object with nested templates, an allowed-mechanism list and dates: the attribute-map / mechanism-set encodings exist on disk
             ok(x.call('C_CreateObject', s=s, tmpl=x.T(K.resolve(ck, K.template('aes192', label='aes192/rich', token=True, private=False, extra=[
@@ -94,7 +114,7 @@ def clone_golden(env, d):
     return mkconf(d, env['backend'])
 
 # ------------------------------------------------------------------------------------------------ (a) API fuzz
-def deep_state(mon, env, rnd):
+def deep_state(mon, env, rnd, light=False):
     """well-formed prologue: sessions on both tokens, user logged in on token 0, handles of every token object,
     session copies of a sample of kinds, a destroyed object and a closed session (stale handles)"""
     ck = env['ck']; st = FG.FState(); c = lambda fn, **kw: mon.call(dict(fn=fn, **kw), 'setup')
@@ -111,7 +131,7 @@ def deep_state(mon, env, rnd):
     S0 = c('C_OpenSession', slot=st.slots[0], flags=6)['h']; S1 = c('C_OpenSession', slot=st.slots[0], flags=4)['h']; S2 = c('C_OpenSession', slot=st.slots[1], flags=6)['h']
     st.sessions = {S0: {'ti': 0, 'rw': True}, S1: {'ti': 0, 'rw': False}, S2: {'ti': 1, 'rw': True}}
     c('C_Login', s=S0, user=1, pin=USER_PIN[0].hex())
-    if rnd.random() < 0.5: c('C_Login', s=S2, user=1, pin=USER_PIN[1].hex())
+    if light or rnd.random() < 0.5: c('C_Login', s=S2, user=1, pin=USER_PIN[1].hex())
     for S, ti in ((S0, 0), (S2, 1)):
         if c('C_FindObjectsInit', s=S, tmpl=[])['rv'] != 0: continue
         hs = []
@@ -125,6 +145,7 @@ def deep_state(mon, env, rnd):
             lab = bytes.fromhex(r['tmpl'][0].get('data', '')).decode('latin-1') if r['rv'] == 0 else None
             st.objs.append(FG.Obj(h, lab.split('/')[0] if lab else None, ti, token=True))
     x = mon.x
+    if light: return st
     for kind in rnd.sample(K.kinds(), 8):
         r = c('C_CreateObject', s=S0, tmpl=x.T(K.resolve(ck, K.template(kind, sensitive=rnd.random() < 0.3))))
         if r['rv'] == 0: st.objs.append(FG.Obj(r['h'], kind, 0))
@@ -162,7 +183,7 @@ def canonical_death(env, e, fn, tags, prefix, base, edits):
     """canonical key `<entry point>|<input class>|<death kind>@<first library frame>`; with several hostile edits the
     input class is found by ablation: the request prefix is replayed in a fresh process on a fresh clone and the base
     request is sent with ONE edit at a time; the first edit that reproduces the same death names the class."""
-    sig = f'{e.kind()}@{e.where()}'
+    sig = death_sig(e)
     if len(edits) > 1:
         for tag, field, val in sorted(edits, key=lambda t: t[0]):
             d = os.path.join(env['scratch'], 'abl-%d-%d' % (os.getpid(), random.getrandbits(40))); x = None
@@ -171,7 +192,7 @@ def canonical_death(env, e, fn, tags, prefix, base, edits):
                 for q in prefix: x.raw(q)
                 x.raw(FG.Gen.apply(base, [(tag, field, val)]))
             except Died as e2:
-                if f'{e2.kind()}@{e2.where()}' == sig: tags = [tag]; break
+                if death_sig(e2) == sig: tags = [tag]; break
             except Hang: pass
             finally:
                 if x: x.kill()
@@ -198,7 +219,7 @@ def run_sequence(env, seed, part, keep=None):
         epilogue(mon, env, st)
     except Died as e:
         fn = e.fn or cur[0]
-        if cur[0] in ('setup', 'epilogue'): key, sig = f"{fn}|{'well-formed' if cur[0] == 'setup' else 'well-formed-after-hostile'}|{e.kind()}@{e.where()}", None
+        if cur[0] in ('setup', 'epilogue'): key, sig = f"{fn}|{'well-formed' if cur[0] == 'setup' else 'well-formed-after-hostile'}|{death_sig(e)}", None
         else: key, sig = canonical_death(env, e, fn, cur[1], mon.reqs[:-1], cur[2], cur[3])
         part.violation(key, f'the library terminated the host process inside {fn} ({e.kind()})',
                        {'mode': 'api', 'seed': seed, 'cfg': env['cfg'], 'backend': env['backend'], 'ncalls': env['ncalls'], 'dying_request': clip(mon.reqs[-1] if mon.reqs else None),
@@ -223,6 +244,308 @@ def rerun_hangs(env, seed):
     try: run_sequence(dict(env, scratch=env['scratch'] + '/rerun'), seed, p, keep=keep)
     except Exception: return False
     return p.counters.get('hangs', 0) > 0
+
+# ------------------------------------------------------------------------------------------------ (a2) directed grids
+# Deterministic enumerations of the hostile-input classes the property text names, so that coverage of e.g. "every parameter
+# struct with field-wise hostile values" or "mismatched key types for every *Init" does not depend on random luck.  A cell is
+# (tag, detail, function(E)); cells of one family are regenerated inside each worker (closures are not picklable) and sharded.
+class CellEnv:
+    def __init__(s, mon, env, st, tag): s.mon = mon; s.env = env; s.ck = env['ck']; s.st = st; s.tag = tag; s.x = mon.x; s.S = 0; s.haes = 0
+    def c(s, fn, **kw): return s.mon.call(dict(fn=fn, **kw), s.tag)
+    def k(s, kind, ti=0):
+        for o in s.st.objs:
+            if o.kind == kind and o.ti == ti and o.token: return o.h
+        return 0
+    def T(s, pairs): return s.x.T(K.resolve(s.ck, list(pairs)))
+    def M(s, name, p=None): return {'m': s.ck[name], 'p': p}
+
+KEY_MATERIAL = ['CKA_VALUE', 'CKA_MODULUS', 'CKA_PUBLIC_EXPONENT', 'CKA_PRIVATE_EXPONENT', 'CKA_PRIME_1', 'CKA_PRIME_2', 'CKA_EXPONENT_1', 'CKA_EXPONENT_2', 'CKA_COEFFICIENT',
+                'CKA_PRIME', 'CKA_SUBPRIME', 'CKA_BASE', 'CKA_EC_PARAMS', 'CKA_EC_POINT']
+def use_class(kind): kc = FG.kclass(kind); return 'des3' if kc in ('des2', 'des') else kc
+SECRET_T = [('CKA_CLASS', 'CKO_SECRET_KEY'), ('CKA_TOKEN', False), ('CKA_SENSITIVE', False), ('CKA_EXTRACTABLE', True), ('CKA_ENCRYPT', True), ('CKA_DECRYPT', True), ('CKA_SIGN', True), ('CKA_VERIFY', True)]
+PRIV_T = [('CKA_CLASS', 'CKO_PRIVATE_KEY'), ('CKA_TOKEN', False), ('CKA_SENSITIVE', False), ('CKA_EXTRACTABLE', True), ('CKA_SIGN', True), ('CKA_DECRYPT', True), ('CKA_DERIVE', True)]
+UNWRAP_TARGETS = [('aes', SECRET_T + [('CKA_KEY_TYPE', 'CKK_AES')]), ('generic', SECRET_T + [('CKA_KEY_TYPE', 'CKK_GENERIC_SECRET')]), ('des3', SECRET_T + [('CKA_KEY_TYPE', 'CKK_DES3')]),
+                  ('rsa-priv', PRIV_T + [('CKA_KEY_TYPE', 'CKK_RSA')]), ('ec-priv', PRIV_T + [('CKA_KEY_TYPE', 'CKK_EC')]), ('dsa-priv', PRIV_T + [('CKA_KEY_TYPE', 'CKK_DSA')]),
+                  ('dh-priv', PRIV_T + [('CKA_KEY_TYPE', 'CKK_DH')]), ('ed-priv', PRIV_T + [('CKA_KEY_TYPE', 'CKK_EC_EDWARDS')])]
+LEN_GRID = [0, 1, 7, 8, 9, 15, 16, 17, 24, 31, 32, 33, 63, 64, 65, 117, 118, 127, 128, 129, 245, 246, 255, 256, 257, 4096, 65536]
+def len_class(n, block=16): return '0' if n == 0 else '1' if n == 1 else 'huge' if n > 4096 else 'aligned' if n % block == 0 else 'unaligned'
+KEY_FOR = {'aes': 'aes128', 'des3': 'des3', 'des2': 'des2', 'des': 'des3', 'generic': 'generic32', 'rsa': 'rsa1024', 'dsa': 'dsa1024', 'ec': 'ec_p256', 'ed': 'ed25519', 'ec-priv': 'ec_p256:priv', 'ed-priv': 'ed25519:priv', 'dh-priv': 'dh1024:priv'}
+def right_key(E, mech, side):
+    k = FG.MECHS[mech][2][0] if FG.MECHS[mech][2] else None
+    if k is None: return 0
+    kind = KEY_FOR[k]
+    return E.k(kind if (':' in kind or k in ('aes', 'des3', 'des2', 'des', 'generic')) else kind + ':' + side)
+def wf_mech(E, h, mech):
+    p = h.wf_param(FG.MECHS[mech][0]); p = {a: b for a, b in p.items() if not a.startswith('_')} if p else None
+    return {'m': E.ck[mech], 'p': p}
+def data_phase(E, kind, mech, n=32, buf=4096):
+    """one-shot and multi-part continuation after a successful Init (kind: E/De/S/Ve)"""
+    d = '5a' * n
+    if kind == 'E': E.c('C_Encrypt', s=E.S, data=d, buf=buf)
+    elif kind == 'De': E.c('C_Decrypt', s=E.S, data=d, buf=buf)
+    elif kind == 'S': E.c('C_Sign', s=E.S, data=d, buf=buf)
+    else: E.c('C_Verify', s=E.S, data=d, sig='a5' * 64)
+def multi_phase(E, kind, n=32, buf=4096):
+    d = '5a' * n
+    if kind == 'E': E.c('C_EncryptUpdate', s=E.S, data=d, buf=buf); E.c('C_EncryptFinal', s=E.S, buf=buf)
+    elif kind == 'De': E.c('C_DecryptUpdate', s=E.S, data=d, buf=buf); E.c('C_DecryptFinal', s=E.S, buf=buf)
+    elif kind == 'S': E.c('C_SignUpdate', s=E.S, data=d); E.c('C_SignFinal', s=E.S, buf=buf)
+    else: E.c('C_VerifyUpdate', s=E.S, data=d); E.c('C_VerifyFinal', s=E.S, sig='a5' * 64)
+INIT_FN = {'E': 'C_EncryptInit', 'De': 'C_DecryptInit', 'S': 'C_SignInit', 'Ve': 'C_VerifyInit', 'SR': 'C_SignRecoverInit', 'VR': 'C_VerifyRecoverInit'}
+DERIVE_T = SECRET_T + [('CKA_KEY_TYPE', 'CKK_GENERIC_SECRET'), ('CKA_DERIVE', True)]
+
+def grid_cells(family, ck, seed, scale):
+    rnd = random.Random(seed * 7919 + hash(family) % 1000 if False else seed * 7919 + sum(map(ord, family))); cells = []; add = lambda tag, detail, f: cells.append((tag, detail, f))
+    H = FG.Gen(rnd, ck, FG.FState(), K)     # value producers only
+    draws = lambda n: max(1, int(n * scale))
+    if family == 'damaged-key':
+        for kind in K.kinds():
+            base = K.template(kind)
+            for attr in [a for a, _ in base if a in KEY_MATERIAL]:
+                for op in ('empty', 'missing', 'zero', 'truncated', 'extended', 'ones', 'one-byte'):
+                    def f(E, kind=kind, attr=attr, op=op, base=base):
+                        v = dict(base)[attr]
+                        nv = {'empty': b'', 'zero': bytes(len(v)), 'truncated': v[:len(v) // 2], 'extended': v + b'\x01', 'ones': b'\xff' * len(v), 'one-byte': b'\x00'}.get(op)
+                        t = [(a, (nv if a == attr else b)) for a, b in base if not (op == 'missing' and a == attr)]
+                        r = E.c('C_CreateObject', s=E.S, tmpl=E.T(t))
+                        if r['rv'] == 0: use_key(E.c, E.ck, E.S, r['h'], use_class(kind), E.haes); E.c('C_GetAttributeValue', s=E.S, o=r['h'], tmpl=[{'t': E.ck[a], 'buf': 4096} for a in ('CKA_CHECK_VALUE', 'CKA_VALUE_LEN', 'CKA_MODULUS_BITS', 'CKA_PUBLIC_KEY_INFO')])
+                    add('use-of-hostile-object', f'{kind} {attr}={op}', f)
+    elif family == 'unwrap':
+        mechs = [('CKM_AES_KEY_WRAP', None, 'aes128'), ('CKM_AES_KEY_WRAP_PAD', None, 'aes128'), ('CKM_AES_CBC_PAD', {'hex': '00' * 16}, 'aes128'), ('CKM_AES_CBC', {'hex': '00' * 16}, 'aes128'), ('CKM_DES3_CBC_PAD', {'hex': '00' * 8}, 'des3'),
+                 ('CKM_DES3_CBC', {'hex': '00' * 8}, 'des3'), ('CKM_RSA_PKCS', None, 'rsa1024:priv'), ('CKM_RSA_PKCS_OAEP', {'oaep': {'hash': ck.CKM_SHA_1, 'mgf': ck.CKG_MGF1_SHA1, 'source': 1}}, 'rsa1024:priv'), ('CKM_AES_ECB', None, 'aes128'), ('CKM_AES_GCM', {'gcm': {'iv': '00' * 12, 'tagbits': 128}}, 'aes128')]
+        for m, p, ukind in mechs:
+            for n in LEN_GRID[:-1]:
+                for fill in ('00', 'ff', '10', '01'):
+                    def f(E, m=m, p=p, ukind=ukind, n=n, fill=fill):
+                        for _, t in UNWRAP_TARGETS[:4] + UNWRAP_TARGETS[4:5]: E.c('C_UnwrapKey', s=E.S, mech=E.M(m, p), ukey=E.k(ukind), wrapped=fill * n, tmpl=E.T(t))
+                    add('len:wrapped=' + len_class(n, 8), f'{m} {n}x{fill}', f)
+        for m, p, ukind in mechs[:3] + mechs[4:5] + mechs[6:8]:
+            for tk in ('aes128', 'generic64', 'rsa1024:priv', 'ec_p256:priv', 'dsa1024:priv', 'dh1024:priv', 'ed25519:priv', 'ec_p521:priv'):
+                for mut in ('minus1', 'minus8', 'half', 'plus1', 'plus8', 'flip-first', 'flip-last', 'flip-mid', 'intact'):
+                    def f(E, m=m, p=p, ukind=ukind, tk=tk, mut=mut):
+                        wk = E.k(ukind.replace(':priv', ':pub')); r = E.c('C_WrapKey', s=E.S, mech=E.M(m, p), wkey=wk, key=E.k(tk), buf=8192)
+                        if r['rv'] != 0: return
+                        w = bytearray.fromhex(r['out']['data']); n = len(w)
+                        if mut == 'minus1': w = w[:-1]
+                        elif mut == 'minus8': w = w[:-8]
+                        elif mut == 'half': w = w[:n // 2]
+                        elif mut == 'plus1': w += b'\x00'
+                        elif mut == 'plus8': w += bytes(8)
+                        elif mut == 'flip-first' and n: w[0] ^= 0x80
+                        elif mut == 'flip-last' and n: w[-1] ^= 1
+                        elif mut == 'flip-mid' and n: w[n // 2] ^= 0x10
+                        for name, t in UNWRAP_TARGETS:
+                            r2 = E.c('C_UnwrapKey', s=E.S, mech=E.M(m, p), ukey=E.k(ukind), wrapped=bytes(w).hex(), tmpl=E.T(t))
+                            if r2['rv'] == 0: use_key(E.c, E.ck, E.S, r2['h'], name, E.haes)
+                    add('len:wrapped=' + ('intact-other-type' if mut == 'intact' else 'mutated-valid'), f'{m} {tk} {mut}', f)
+    elif family == 'mechparam':
+        for m, (pk, ops, ks) in FG.MECHS.items():
+            seen = set()
+            for _ in range(draws(70 if pk != 'none' else 6)):
+                lab, p = H.hostile_param(pk); sig = json.dumps([lab, p], sort_keys=True)
+                if sig in seen: continue
+                seen.add(sig); p = {a: b for a, b in p.items() if not a.startswith('_')} if p else None; mech = {'m': ck[m], 'p': p}; tag = f'mechparam:{pk}:{lab}'
+                def f(E, m=m, ops=ops, mech=mech):
+                    if 'E' in ops:
+                        for kind, side in (('E', 'pub'), ('De', 'priv')):
+                            if E.c(INIT_FN[kind], s=E.S, mech=mech, key=right_key(E, m, side))['rv'] == 0: data_phase(E, kind, m)
+                            if E.c(INIT_FN[kind], s=E.S, mech=mech, key=right_key(E, m, side))['rv'] == 0: multi_phase(E, kind)
+                    if 'S' in ops:
+                        for kind, side in (('S', 'priv'), ('Ve', 'pub')):
+                            if E.c(INIT_FN[kind], s=E.S, mech=mech, key=right_key(E, m, side))['rv'] == 0: data_phase(E, kind, m)
+                            if E.c(INIT_FN[kind], s=E.S, mech=mech, key=right_key(E, m, side))['rv'] == 0: multi_phase(E, kind)
+                    if 'R' in ops:
+                        E.c('C_SignRecoverInit', s=E.S, mech=mech, key=right_key(E, m, 'priv')); E.c('C_VerifyRecoverInit', s=E.S, mech=mech, key=right_key(E, m, 'pub'))
+                    if 'D' in ops:
+                        if E.c('C_DigestInit', s=E.S, mech=mech)['rv'] == 0: E.c('C_Digest', s=E.S, data='616263', buf=64)
+                    if 'W' in ops:
+                        r = E.c('C_WrapKey', s=E.S, mech=mech, wkey=right_key(E, m, 'pub'), key=E.k('aes256'), buf=4096)
+                        E.c('C_UnwrapKey', s=E.S, mech=mech, ukey=right_key(E, m, 'priv'), wrapped=(r.get('out') or {}).get('data') or '00' * 40, tmpl=E.T(UNWRAP_TARGETS[0][1]))
+                    if 'G' in ops: E.c('C_GenerateKey', s=E.S, mech=mech, tmpl=E.T([('CKA_TOKEN', False), ('CKA_VALUE_LEN', 16), ('CKA_PRIME_BITS', 512)][:2 if 'PARAMETER' not in m else 3:1 if 'PARAMETER' not in m else 2] or [('CKA_TOKEN', False)]))
+                    if 'V' in ops:
+                        r = E.c('C_DeriveKey', s=E.S, mech=mech, key=right_key(E, m, 'priv'), tmpl=E.T(DERIVE_T + [('CKA_VALUE_LEN', 16)]))
+                        if r['rv'] == 0: use_key(E.c, E.ck, E.S, r['h'], 'generic', E.haes)
+                add(tag, m, f)
+    elif family == 'keytype':
+        kinds = [k for k in K.kinds() if k in GOLDEN_TOK0]
+        for m, (pk, ops, ks) in list(FG.MECHS.items()) + [('unknown:%x' % u, ('none', 'ESRWVD', [])) for u in FG.UNKNOWN_MECHS[:4]]:
+            for kind in kinds:
+                def f(E, m=m, kind=kind):
+                    mech = wf_mech(E, H, m) if not m.startswith('unknown') else {'m': int(m[8:], 16), 'p': None}; h = E.k(kind)
+                    for opk in ('E', 'De', 'S', 'Ve', 'SR', 'VR'):
+                        if E.c(INIT_FN[opk], s=E.S, mech=mech, key=h)['rv'] == 0:
+                            if opk in ('SR', 'VR'): E.c('C_SignRecover' if opk == 'SR' else 'C_VerifyRecover', s=E.S, data='5a' * 32, buf=4096)
+                            else: data_phase(E, opk, m)
+                            r = E.c('C_OpenSession', slot=E.st.slots[0], flags=6); E.c('C_CloseSession', s=E.S); E.S = r['h']
+                    r = E.c('C_WrapKey', s=E.S, mech=mech, wkey=h, key=E.k('aes256'), buf=4096); E.c('C_WrapKey', s=E.S, mech=mech, wkey=right_key(E, m, 'pub') if not m.startswith('unknown') else E.k('aes128'), key=h, buf=4096)
+                    E.c('C_UnwrapKey', s=E.S, mech=mech, ukey=h, wrapped='00' * 40, tmpl=E.T(UNWRAP_TARGETS[0][1]))
+                    r = E.c('C_DeriveKey', s=E.S, mech=mech, key=h, tmpl=E.T(DERIVE_T + [('CKA_VALUE_LEN', 16)]))
+                    if E.c('C_DigestInit', s=E.S, mech=E.M('CKM_SHA256'))['rv'] == 0: E.c('C_DigestKey', s=E.S, key=h); E.c('C_DigestFinal', s=E.S, buf=64)
+                add('keytype=' + FG.kclass(kind), f'{m} x {kind}', f)
+    elif family == 'datalen':
+        for m, (pk, ops, ks) in FG.MECHS.items():
+            for opk, side in ([('E', 'pub'), ('De', 'priv')] if 'E' in ops else []) + ([('S', 'priv'), ('Ve', 'pub')] if 'S' in ops else []) + ([('D', '')] if 'D' in ops else []):
+                for n in LEN_GRID:
+                    def f(E, m=m, opk=opk, side=side, n=n):
+                        mech = wf_mech(E, H, m); key = right_key(E, m, side); d = '5a' * n
+                        init = (lambda: E.c('C_DigestInit', s=E.S, mech=mech)) if opk == 'D' else (lambda: E.c(INIT_FN[opk], s=E.S, mech=mech, key=key))
+                        for buf in (None, 0, 1, 15, 4096 + n):
+                            if init()['rv'] != 0: return
+                            if opk == 'D': E.c('C_Digest', s=E.S, data=d, buf=buf); E.c('C_Digest', s=E.S, data=d, buf=4096)
+                            elif opk == 'Ve': E.c('C_Verify', s=E.S, data='5a' * 32, sig=d); break
+                            else: E.c({'E': 'C_Encrypt', 'De': 'C_Decrypt', 'S': 'C_Sign'}[opk], s=E.S, data=d, buf=buf); E.c({'E': 'C_Encrypt', 'De': 'C_Decrypt', 'S': 'C_Sign'}[opk], s=E.S, data=d, buf=4096 + n)
+                        for fbuf in (None, 0, 1, 15, 16, 4096):   # multi-part: Update with n bytes (twice), Final with every buffer size
+                            if init()['rv'] != 0: return
+                            if opk == 'D': E.c('C_DigestUpdate', s=E.S, data=d); E.c('C_DigestFinal', s=E.S, buf=fbuf); E.c('C_DigestFinal', s=E.S, buf=4096)
+                            elif opk == 'Ve': E.c('C_VerifyUpdate', s=E.S, data=d); E.c('C_VerifyFinal', s=E.S, sig='a5' * (n % 300)); break
+                            elif opk == 'S': E.c('C_SignUpdate', s=E.S, data=d); E.c('C_SignFinal', s=E.S, buf=fbuf); E.c('C_SignFinal', s=E.S, buf=4096)
+                            else:
+                                U, Fi = ('C_EncryptUpdate', 'C_EncryptFinal') if opk == 'E' else ('C_DecryptUpdate', 'C_DecryptFinal')
+                                E.c(U, s=E.S, data=d, buf=fbuf); E.c(U, s=E.S, data=d, buf=4096 + n); E.c(Fi, s=E.S, buf=fbuf); E.c(Fi, s=E.S, buf=4096)
+                    add('len:data=' + len_class(n), f'{m} {opk} {n}', f)
+    elif family == 'derive':
+        for m in FG.op_mechs('V'):
+            for vl in (None, 0, 1, 7, 8, 16, 24, 31, 32, 33, 64, 255, 256, 4096, (1 << 31) + 1, FG.U64):
+                for kt in ('CKK_GENERIC_SECRET', 'CKK_AES', 'CKK_DES', 'CKK_DES2', 'CKK_DES3', 'CKK_RSA', 0xFFFFFFFF):
+                    def f(E, m=m, vl=vl, kt=kt):
+                        t = SECRET_T + [('CKA_KEY_TYPE', kt), ('CKA_DERIVE', True)] + ([('CKA_VALUE_LEN', vl)] if vl is not None else [])
+                        r = E.c('C_DeriveKey', s=E.S, mech=wf_mech(E, H, m), key=right_key(E, m, 'priv'), tmpl=E.T(t))
+                        if r['rv'] == 0: use_key(E.c, E.ck, E.S, r['h'], {'CKK_AES': 'aes', 'CKK_DES3': 'des3', 'CKK_DES2': 'des3', 'CKK_DES': 'des3'}.get(kt, 'generic'), E.haes)
+                    add('tmpl=ulong-value', f'{m} VALUE_LEN={vl} {kt}', f)
+            for _ in range(draws(30)):
+                lab, t = H.hostile_template(H_T(ck, DERIVE_T + [('CKA_VALUE_LEN', 16)]))
+                def f(E, m=m, t=t): E.c('C_DeriveKey', s=E.S, mech=wf_mech(E, H, m), key=right_key(E, m, 'priv'), tmpl=t)
+                add('tmpl=' + lab, m, f)
+    elif family == 'template':
+        for kind in K.kinds():
+            for _ in range(draws(24)):
+                lab, t = H.hostile_template(H_T(ck, K.template(kind)))
+                def f(E, kind=kind, t=t):
+                    r = E.c('C_CreateObject', s=E.S, tmpl=t)
+                    if r['rv'] == 0 and r.get('h'): use_key(E.c, E.ck, E.S, r['h'], use_class(kind), E.haes); E.c('C_GetAttributeValue', s=E.S, o=r['h'], tmpl=[{'t': E.ck[a], 'buf': 4096} for a in PROBE_ATTRS[:40]]); E.c('C_CopyObject', s=E.S, o=r['h'], tmpl=[])
+                add('tmpl=' + lab, 'C_CreateObject ' + kind, f)
+            for _ in range(draws(8)):
+                lab, t = H.hostile_template(H_T(ck, [('CKA_LABEL', b'x'), ('CKA_ID', b'y'), ('CKA_ENCRYPT', True), ('CKA_EXTRACTABLE', False)][:rnd.randrange(1, 5)]))
+                def f(E, kind=kind, t=t):
+                    r = E.c('C_CopyObject', s=E.S, o=E.k(kind), tmpl=[{'t': E.ck.CKA_TOKEN, 'bool': False}])
+                    if r['rv'] == 0: E.c('C_SetAttributeValue', s=E.S, o=r['h'], tmpl=t); E.c('C_CopyObject', s=E.S, o=r['h'], tmpl=t); E.c('C_FindObjectsInit', s=E.S, tmpl=t); E.c('C_FindObjects', s=E.S, max=4); E.c('C_FindObjectsFinal', s=E.S)
+                add('tmpl=' + lab, 'C_SetAttributeValue/C_CopyObject/C_FindObjectsInit ' + kind, f)
+        gens = [('CKM_AES_KEY_GEN', [('CKA_VALUE_LEN', 16)]), ('CKM_GENERIC_SECRET_KEY_GEN', [('CKA_VALUE_LEN', 32)]), ('CKM_DES3_KEY_GEN', []), ('CKM_DSA_PARAMETER_GEN', [('CKA_PRIME_BITS', 512)]), ('CKM_DH_PKCS_PARAMETER_GEN', [('CKA_PRIME_BITS', 512)])]
+        for m, extra in gens:
+            for _ in range(draws(20)):
+                lab, t = H.hostile_template(H_T(ck, [('CKA_TOKEN', False), ('CKA_ENCRYPT', True)] + extra))
+                def f(E, m=m, t=t): E.c('C_GenerateKey', s=E.S, mech=E.M(m), tmpl=t)
+                add('tmpl=' + lab, 'C_GenerateKey ' + m, f)
+        R = K.RAW
+        pairs = [('CKM_RSA_PKCS_KEY_PAIR_GEN', [('CKA_MODULUS_BITS', 512), ('CKA_PUBLIC_EXPONENT', bytes([1, 0, 1]))]), ('CKM_EC_KEY_PAIR_GEN', [('CKA_EC_PARAMS', bytes.fromhex(R['ec_p256']['CKA_EC_PARAMS']))]),
+                 ('CKM_EC_EDWARDS_KEY_PAIR_GEN', [('CKA_EC_PARAMS', bytes.fromhex(R['ed25519']['CKA_EC_PARAMS']))]), ('CKM_DSA_KEY_PAIR_GEN', [(a, bytes.fromhex(R['dsa1024'][a])) for a in ('CKA_PRIME', 'CKA_SUBPRIME', 'CKA_BASE')]),
+                 ('CKM_DH_PKCS_KEY_PAIR_GEN', [(a, bytes.fromhex(R['dh1024'][a])) for a in ('CKA_PRIME', 'CKA_BASE')])]
+        for m, pub in pairs:
+            for which in ('pub', 'priv'):
+                for _ in range(draws(24)):
+                    bt = [('CKA_TOKEN', False), ('CKA_VERIFY', True)] + pub if which == 'pub' else [('CKA_TOKEN', False), ('CKA_SIGN', True), ('CKA_SENSITIVE', False)]
+                    lab, t = H.hostile_template(H_T(ck, bt))
+                    def f(E, m=m, t=t, which=which, pub=pub):
+                        a = t if which == 'pub' else E.T([('CKA_TOKEN', False)] + pub); b = t if which == 'priv' else E.T([('CKA_TOKEN', False)])
+                        r = E.c('C_GenerateKeyPair', s=E.S, mech=E.M(m), pub=a, priv=b)
+                        if r['rv'] == 0:
+                            fam = {'CKM_RSA_PKCS_KEY_PAIR_GEN': 'rsa', 'CKM_EC_KEY_PAIR_GEN': 'ec', 'CKM_EC_EDWARDS_KEY_PAIR_GEN': 'ed', 'CKM_DSA_KEY_PAIR_GEN': 'dsa', 'CKM_DH_PKCS_KEY_PAIR_GEN': 'dh'}[m]
+                            use_key(E.c, E.ck, E.S, r['hpriv'], fam + '-priv', E.haes); use_key(E.c, E.ck, E.S, r['hpub'], fam + '-pub', E.haes)
+                    add('tmpl=' + lab, f'C_GenerateKeyPair {m} {which}', f)
+    elif family == 'misc':
+        for kind in [k for k in K.kinds() if k in GOLDEN_TOK0]:
+            def f(E, kind=kind):
+                h = E.k(kind)
+                for buf in (None, 0, 1, 7):
+                    for i in range(0, len(FG.ALL_ATTR_NAMES), 16): E.c('C_GetAttributeValue', s=E.S, o=h, tmpl=[{'t': E.ck[a], 'buf': buf} for a in FG.ALL_ATTR_NAMES[i:i + 16] if a not in FG.ARRAY_ATTRS or buf is None])
+                for a in FG.ARRAY_ATTRS:
+                    for nslots in (0, 1, 2, 8): E.c('C_GetAttributeValue', s=E.S, o=h, tmpl=[{'t': E.ck[a], 'tmpl': [{'t': 0, 'buf': b} for b in ([0, 1, 8, 64] * 2)[:nslots]]}])
+                E.c('C_GetObjectSize', s=E.S, o=h)
+            add('buf=size', 'C_GetAttributeValue every attribute x small buffers on ' + kind, f)
+            for _ in range(draws(6)):
+                lab, t = H.hostile_template([], get=True)
+                def f(E, kind=kind, t=t): E.c('C_GetAttributeValue', s=E.S, o=E.k(kind), tmpl=t)
+                add('tmpl=' + lab, 'C_GetAttributeValue ' + kind, f)
+        for n in LEN_GRID + [1 << 20]:
+            def f(E, n=n):
+                E.c('C_SetOperationState', s=E.S, data=H.blob(n), k1=0, k2=0); E.c('C_SetOperationState', s=E.S, data='00' * n, k1=E.k('aes128'), k2=E.k('rsa1024:priv'))
+                E.c('C_SeedRandom', s=E.S, data=H.blob(n)); E.c('C_GenerateRandom', s=E.S, buf=n); E.c('C_GetOperationState', s=E.S, buf=(None if n == 0 else n))
+                if E.c('C_DigestInit', s=E.S, mech=E.M('CKM_SHA256'))['rv'] == 0: E.c('C_GetOperationState', s=E.S, buf=n); E.c('C_GetOperationState', s=E.S, buf=None); E.c('C_DigestFinal', s=E.S, buf=64)
+            add('len:data=' + len_class(n), 'C_SetOperationState/C_SeedRandom/C_GenerateRandom/C_GetOperationState %d' % n, f)
+        for n in (0, 1, 3, 4, 8, 31, 32, 255, 256, 257, 1024, 65536):
+            for fnname in ('C_Login', 'C_SetPIN', 'C_InitPIN', 'C_InitToken'):
+                def f(E, n=n, fnname=fnname):
+                    pin = ('70' * n) if n else ''
+                    if fnname == 'C_Login':
+                        E.c('C_Logout', s=E.S)
+                        for u in (0, 1, 2, 3, FG.U64): E.c('C_Login', s=E.S, user=u, pin=pin); E.c('C_Login', s=E.S, user=u, pin={'null': True, 'len': 0})
+                    elif fnname == 'C_SetPIN': E.c('C_SetPIN', s=E.S, old=pin, new=USER_PIN[0].hex()); E.c('C_SetPIN', s=E.S, old=USER_PIN[0].hex(), new=pin); E.c('C_Logout', s=E.S); E.c('C_SetPIN', s=E.S, old=pin, new=pin)
+                    elif fnname == 'C_InitPIN': E.c('C_InitPIN', s=E.S, pin=pin); E.c('C_Logout', s=E.S); E.c('C_Login', s=E.S, user=0, pin=SO_PIN[0].hex()); E.c('C_InitPIN', s=E.S, pin=pin); E.c('C_Login', s=E.S, user=1, pin=pin)
+                    else:
+                        E.c('C_InitToken', slot=E.st.slots[1], pin=pin, label='41' * 32); E.c('C_CloseAllSessions', slot=E.st.slots[1]); E.c('C_InitToken', slot=E.st.slots[1], pin=pin, label=''); E.c('C_InitToken', slot=E.st.slots[2], pin=pin, label='42' * 32)
+                        E.c('C_GetSlotList', null=True); E.c('C_GetTokenInfo', slot=E.st.slots[2])
+                add('pin:pin=' + ('0' if n == 0 else 'short' if n < 4 else 'long' if n > 255 else 'size'), f'{fnname} pin length {n}', f)
+        for sl in (0, 1, 2, 3, 1 << 31, (1 << 31) - 1, 1 << 32, FG.U64, 12345):
+            def f(E, sl=sl):
+                for fnname in ('C_GetSlotInfo', 'C_GetTokenInfo', 'C_CloseAllSessions'): E.c(fnname, slot=sl)
+                E.c('C_GetMechanismList', slot=sl, count=128); E.c('C_GetMechanismList', slot=sl, null=True); E.c('C_GetMechanismInfo', slot=sl, m=E.ck.CKM_AES_CBC); E.c('C_OpenSession', slot=sl, flags=6); E.c('C_InitToken', slot=sl, pin='31323334', label='')
+            add('handle:slot=random', 'slot functions with slot id %d' % sl, f)
+        for cnt in (0, 1, 2, 3, 4096):
+            def f(E, cnt=cnt):
+                for p in (True, False): E.c('C_GetSlotList', count=cnt, present=p); E.c('C_GetSlotList', null=True, present=p)
+                E.c('C_GetMechanismList', slot=E.st.slots[0], count=cnt); E.c('C_FindObjectsInit', s=E.S, tmpl=[]); E.c('C_FindObjects', s=E.S, max=cnt); E.c('C_FindObjects', s=E.S, max=65536); E.c('C_FindObjectsFinal', s=E.S)
+                for m in list(FG.MECHS)[:80] + FG.UNKNOWN_MECHS: E.c('C_GetMechanismInfo', slot=E.st.slots[0], m=(E.ck[m] if isinstance(m, str) else m))
+            add('arg:count=' + ('0' if cnt == 0 else 'small' if cnt < 8 else 'large'), 'list functions with count %d' % cnt, f)
+        def f(E):
+            for fnname in ('C_GetInfo', 'C_GetFunctionList', 'C_GetFunctionStatus', 'C_CancelFunction', 'C_WaitForSlotEvent', 'C_Initialize', 'C_Finalize', 'C_GetInfo', 'C_GetSessionInfo', 'C_Finalize', 'C_Initialize', 'C_Initialize'):
+                E.c(fnname, **({'s': E.S} if fnname in FG.SESSION_FNS else {}), **({'flags': 1} if fnname == 'C_WaitForSlotEvent' else {}))
+            for fnname in FG.ALL_FNS:   # every entry point with dead handles after a re-initialisation
+                q = dict(fn=fnname)
+                if fnname in ('C_Finalize', 'C_InitToken'): continue
+                q.update({k: v for k, v in dict(s=E.S, o=E.k('aes128'), key=E.k('aes128'), wkey=E.k('aes128'), ukey=E.k('aes128'), slot=E.st.slots[0], mech=E.M('CKM_SHA256'), data='00' * 16, sig='00' * 16, wrapped='00' * 16, buf=64, tmpl=[], pub=[], priv=[], pin='31323334', old='31323334', new='31323334', user=1, m=E.ck.CKM_SHA256, count=8, flags=1 if fnname == 'C_WaitForSlotEvent' else 6, max=4).items()})
+                E.mon.call(q, E.tag)
+        add('handle:s=stale', 'every entry point with handles from before C_Finalize/C_Initialize', f)
+    return cells
+
+def H_T(ck, pairs):
+    """python template -> request entries without needing an executor"""
+    g = FG.Gen.__new__(FG.Gen); g.ck = ck; return g.T(K.resolve(ck, list(pairs)))
+
+FAMILIES = ['damaged-key', 'unwrap', 'mechparam', 'keytype', 'datalen', 'derive', 'template', 'misc']
+BATCH = {'damaged-key': 12, 'unwrap': 40, 'mechparam': 30, 'keytype': 40, 'datalen': 12, 'derive': 40, 'template': 20, 'misc': 1}
+
+def run_cells(env, family, cells, part, solo=False):
+    """cells of one batch share an executor (a fresh session each); a death is re-run alone in a fresh executor to attribute it"""
+    rnd = random.Random(1); d = os.path.join(env['scratch'], 'g%d' % random.getrandbits(48)); i = 0; died_keys = []
+    while i < len(cells):
+        shutil.rmtree(d, ignore_errors=True); x = new_exec(env, d, conf=clone_golden(env, d)); mon = Monitor(x, env['ck'], part); tag, detail = 'setup', ''
+        try:
+            st = deep_state(mon, env, rnd, light=True)
+            while i < len(cells):
+                tag, detail, f = cells[i]; E = CellEnv(mon, env, st, tag)
+                r = mon.call(dict(fn='C_OpenSession', slot=st.slots[0], flags=6), 'setup'); E.S = r.get('h', 0)
+                r = mon.call(dict(fn='C_CreateObject', s=E.S, tmpl=x.T(K.resolve(env['ck'], K.template('aes128', label='cell-aes')))), 'setup'); E.haes = r.get('h', 0)
+                n0 = len(mon.reqs); f(E); mon.call(dict(fn='C_CloseSession', s=E.S), 'setup')
+                part.case((family, tag, detail.split(' ')[0])); part.count('grid_cells'); part.count('grid_calls', len(mon.reqs) - n0); part.count('grid:' + family); i += 1
+                if len(part.samples) < 1: part.samples.append({'mode': 'grid', 'family': family, 'tag': tag, 'detail': detail, 'requests': [clip(q, 64) for q in mon.reqs[n0:n0 + 6]]})
+        except Died as e:
+            sig = death_sig(e); fn = e.fn; x.kill()
+            if tag == 'setup': part.violation(f'{fn}|well-formed|{sig}', f'the library terminated the host process inside {fn} during the well-formed prologue', {'mode': 'grid', 'family': family, 'stderr_tail': (e.stderr_tail or '')[-2500:]}); i += 1; continue
+            cls = tag
+            if not solo:   # confirm alone
+                p2 = Part(); keys = run_cells(env, family, [cells[i]], p2, solo=True)
+                if not any(k == (fn, sig) for k in keys): cls = 'sequence-dependent:' + tag
+            died_keys.append((fn, sig))
+            if not solo or True:
+                part.violation(f'{fn}|{cls}|{sig}', f'the library terminated the host process inside {fn} ({e.kind()})',
+                               {'mode': 'grid', 'family': family, 'cell': detail, 'tag': tag, 'seed': env['seed'], 'cfg': env['cfg'], 'backend': env['backend'], 'dying_request': clip(mon.reqs[-1]), 'note': e.note,
+                                'stderr_tail': (e.stderr_tail or '')[-2500:], 'trace_tail': [clip(q, 80) for q in mon.reqs[-6:]]}) if not solo else None
+            part.count('deaths'); part.case((family, tag, detail.split(' ')[0])); part.count('grid_cells'); i += 1
+        except Hang:
+            x.kill(); part.count('hangs'); part.violation(f'{(mon.reqs[-1] or {}).get("fn")}|{tag}|hang', 'a call did not return within %d s' % TIMEOUT, {'mode': 'grid', 'family': family, 'cell': detail, 'request': clip(mon.reqs[-1])}); i += 1
+        finally: x.kill()
+    shutil.rmtree(d, ignore_errors=True)
+    return died_keys
 
 # ------------------------------------------------------------------------------------------------ (b) file fuzz
 PROBE_ATTRS = FG.BOOL_ATTRS + FG.ULONG_ATTRS + FG.BYTES_ATTRS + FG.MECHLIST_ATTRS
@@ -317,6 +640,38 @@ def use_key(c, ck, S, h, kc, haes):
     elif kc == 'dh-priv': c('C_DeriveKey', s=S, mech=M('CKM_DH_PKCS_DERIVE', {'hex': R['dh1024b']['CKA_VALUE']}), key=h, tmpl=derive_t)
     if kc.endswith('-priv') and haes: c('C_WrapKey', s=S, mech=M('CKM_AES_KEY_WRAP_PAD'), wkey=haes, key=h, buf=4096)   # PKCS#8 encoding of whatever the file now says
 
+EXPECTED_KIND = {}
+def _expected_kinds(ck):
+    if not EXPECTED_KIND:
+        for a in FG.BOOL_ATTRS: EXPECTED_KIND[ck[a]] = 1
+        for a in FG.ULONG_ATTRS: EXPECTED_KIND[ck[a]] = 2
+        for a in FG.BYTES_ATTRS: EXPECTED_KIND[ck[a]] = 3
+        for a in FG.ARRAY_ATTRS: EXPECTED_KIND[ck[a]] = 4
+        for a in FG.MECHLIST_ATTRS: EXPECTED_KIND[ck[a]] = 5
+        EXPECTED_KIND.update({0x80005349: 3, 0x8000534A: 3, 0x8000534B: 2, 0x8000534C: 3, 0x8000534D: 3})
+    return EXPECTED_KIND
+def effect_class(ck, orig, new):
+    """what a mutation did to an object file, as the LIBRARY will see it (the canonical input class of a file-fuzz death):
+    the operator that produced it stays in the witness"""
+    if len(new) == 0: return 'empty'
+    Fn, Rn = FG.walk_objfile(new); Fo, Ro = FG.walk_objfile(orig)
+    if not ((Rn and Rn[-1][1] == len(new)) or len(new) == 8): return 'malformed'
+    EK = _expected_kinds(ck)
+    if any(EK.get(t) not in (None, k) for (_, _, t, k) in Rn): return 'kind-mismatch'
+    to = [t for (_, _, t, _) in Ro]; tn = [t for (_, _, t, _) in Rn]
+    if set(to) - set(tn): return 'attribute-missing'
+    if len(tn) != len(set(tn)): return 'attribute-duplicated'
+    if set(tn) - set(to): return 'attribute-added'
+    vo = {t: orig[s0 + 16:e0] for (s0, e0, t, _) in Ro}; vn = {t: new[s0 + 16:e0] for (s0, e0, t, _) in Rn}
+    if any(len(vo[t]) != len(vn[t]) for t in vn): return 'attribute-resized'
+    if any(vo[t] != vn[t] for t in vn): return 'attribute-value'
+    if tn != to: return 'attribute-reordered'
+    return 'generation-only' if orig[:8] != new[:8] else 'unchanged'
+
+def coarse_effect(eff):
+    """key classes: the file still parses but its attribute set / kinds / values differ ('altered'), it no longer parses ('malformed'), it is empty, or nothing the library reads changed"""
+    return eff if eff in ('empty', 'malformed') else 'unchanged' if eff in ('unchanged', 'generation-only') else 'altered'
+
 def token_dirs(d): return sorted(os.path.join(d, 'tokens', t) for t in os.listdir(os.path.join(d, 'tokens')))
 def read_label(tokdir, backend):
     try:
@@ -405,12 +760,49 @@ def mutate_db(rnd, path):
     finally: con.close()
     return lab
 
+KEY_ATTR_NAMES = ['CKA_CLASS', 'CKA_KEY_TYPE', 'CKA_VALUE', 'CKA_MODULUS', 'CKA_PUBLIC_EXPONENT', 'CKA_PRIVATE_EXPONENT', 'CKA_PRIME_1', 'CKA_PRIME_2', 'CKA_EXPONENT_1', 'CKA_EXPONENT_2',
+                  'CKA_COEFFICIENT', 'CKA_PRIME', 'CKA_SUBPRIME', 'CKA_BASE', 'CKA_EC_PARAMS', 'CKA_EC_POINT']
+def sorted_objs(tok): return sorted((n for n in os.listdir(tok) if n.endswith('.object') and n != 'token.object'), key=lambda n: os.stat(os.path.join(tok, n)).st_mtime_ns)
+def directed_items(env):
+    """systematic part of the file fuzz: every key-material attribute of every object of token 0 x {deleted, emptied, stored under another kind}"""
+    ck = env['ck']; want = {ck[a] for a in KEY_ATTR_NAMES}; be = env['backend']; toks = token_dirs(env['golden']); toks.sort(key=lambda t: read_label(t, be)); t0 = toks[0]; out = []
+    if be == 'file':
+        for oi, n in enumerate(sorted_objs(t0)):
+            for (s0, e0, t, k) in FG.walk_objfile(open(os.path.join(t0, n), 'rb').read())[1]:
+                if t in want: out += [('dir', oi, t, op) for op in ('delete', 'empty', 'kind')]
+    else:
+        con = sqlite3.connect(os.path.join(t0, 'sqlite3.db'))
+        for tab in ('attribute_binary', 'attribute_integer'):
+            for oid, t in con.execute(f'select object_id, type from {tab} order by object_id, type').fetchall():
+                if t in want: out += [('dir', oid, t, op) for op in ('delete', 'empty', 'kind')]
+        con.close()
+    return out
+def apply_directed(env, t0, item):
+    _, oi, at, op = item; U = lambda v: struct.pack('>Q', v)
+    if env['backend'] == 'file':
+        p = os.path.join(t0, sorted_objs(t0)[oi]); b = open(p, 'rb').read(); rec = [x for x in FG.walk_objfile(b)[1] if x[2] == at][0]; s0, e0, t, k = rec
+        if op == 'delete': new = b[:s0] + b[e0:]
+        elif op == 'empty': new = b[:s0 + 16] + (U(0) if k in (2, 3) else b'\x00') + b[e0:]
+        else: new = b[:s0 + 8] + ({3: U(1) + b'\x01', 2: U(3) + U(3) + b'abc', 1: U(2) + U(1)}.get(k) or (U(1) + b'\x01')) + b[e0:]
+        open(p, 'wb').write(new); return 'object:' + coarse_effect(effect_class(env['ck'], b, new)), {'effect': effect_class(env['ck'], b, new), 'file': os.path.basename(p), 'object_index_in_creation_order': oi, 'attribute': env['ck'].ATTR.get(at, hex(at)), 'operator': 'directed:' + op, 'hex': new.hex() if len(new) <= 2048 else None}
+    con = sqlite3.connect(os.path.join(t0, 'sqlite3.db')); cur = con.cursor()
+    tab = 'attribute_binary' if cur.execute('select count(*) from attribute_binary where object_id=? and type=?', (oi, at)).fetchone()[0] else 'attribute_integer'
+    if op == 'delete': cur.execute(f'delete from {tab} where object_id=? and type=?', (oi, at))
+    elif op == 'empty': cur.execute(f'update {tab} set value=? where object_id=? and type=?', (b'' if tab == 'attribute_binary' else 0, oi, at))
+    else:
+        cur.execute(f'delete from {tab} where object_id=? and type=?', (oi, at)); dst, val = ('attribute_boolean', 1) if tab == 'attribute_binary' else ('attribute_binary', b'abc')
+        cur.execute(f'insert into {dst} (value, type, object_id) values (?,?,?)', (val, at, oi))
+    con.commit(); con.close()
+    return 'object:altered', {'object_id': oi, 'attribute': env['ck'].ATTR.get(at, hex(at)), 'operator': 'directed:' + op}
+
 def file_case(env, idx, part):
-    seed = env['seed'] * 1000003 + idx; rnd = random.Random(seed); r = rnd; d = os.path.join(env['scratch'], 'f%d' % idx); shutil.rmtree(d, ignore_errors=True)
+    item = idx if isinstance(idx, tuple) else None; idx = ('d%d-%x-%s' % idx[1:]) if item else idx
+    seed = env['seed'] * 1000003 + (idx if not item else 0); rnd = random.Random(seed); r = rnd; d = os.path.join(env['scratch'], 'f%s' % idx); shutil.rmtree(d, ignore_errors=True)
     conf = clone_golden(env, d); be = env['backend']; toks = token_dirs(d); toks.sort(key=lambda t: read_label(t, be)); t0 = toks[0]; info = {}
     c = r.random()
     try:
-        if c < 0.13:
+        if item: cls, info = apply_directed(env, t0, item); part.count('file_directed_cases')
+        elif c < 0.13:
             lab, data = FG.mutate_conf(r, open(conf).read(), d); open(conf, 'wb').write(data); cls = 'conf:' + lab
         elif c < 0.21: cls = 'dir:' + mutate_dir(r, d, toks, be)
         elif be == 'file':
@@ -422,30 +814,31 @@ def file_case(env, idx, part):
                 else: ser = [b'%016x' % len(toks), b'%016x' % ((1 << 31) + len(toks)), r.choice([b'', b'zz', b'0' * 15 + b'g', b'f' * 16, b'1' * 64])][k]   # the free slot's id is the number of tokens
                 nb = FG.set_token_serial(b, ser); open(os.path.join(tok, 'token.object'), 'wb').write(nb if nb else b); cls = 'token.object:serial-' + ['collides-free-slot', 'collides-free-slot-bit31', 'odd', 'collides-other-token'][k]
             else:
-                names = sorted(os.listdir(tok)); objs = [n for n in names if n.endswith('.object') and n != 'token.object']
+                objs = sorted((n for n in os.listdir(tok) if n.endswith('.object') and n != 'token.object'), key=lambda n: os.stat(os.path.join(tok, n)).st_mtime_ns)   # creation order = order of kinds
                 if c < 0.45: name = 'token.object'; kind = 'token.object'
                 elif c < 0.49: name = 'generation'; kind = 'generation'
-                else: name = r.choice(objs); kind = 'object'
+                else: oi = r.randrange(len(objs)); name = objs[oi]; kind = 'object'; info['object_index_in_creation_order'] = oi
                 p = os.path.join(tok, name); b = open(p, 'rb').read() if os.path.exists(p) else b''
-                otherf = open(os.path.join(r.choice(toks), r.choice(objs + ['token.object'])), 'rb').read() if objs else None
-                lab, data = FG.mutate_objfile(r, b, otherf); open(p, 'wb').write(data); cls = '%s:%s' % (kind, lab); info = {'file': name, 'size': len(data)}
+                ot = r.choice(toks); otherf = open(os.path.join(ot, r.choice([n for n in sorted(os.listdir(ot)) if n.endswith('.object')])), 'rb').read()
+                lab, data = FG.mutate_objfile(r, b, otherf); open(p, 'wb').write(data); eff = effect_class(env['ck'], b, data); cls = '%s:%s' % (kind, coarse_effect(eff) if kind != 'generation' else 'rewritten'); info.update({'operator': lab, 'effect': eff, 'file': name, 'size': len(data), 'token': toks.index(tok)})
                 if len(data) <= 2048: info['hex'] = data.hex()
         else:
-            tok = r.choice(toks) if r.random() < 0.3 else t0; cls = 'db:' + mutate_db(r, os.path.join(tok, 'sqlite3.db'))
+            tok = r.choice(toks) if r.random() < 0.3 else t0; op = mutate_db(r, os.path.join(tok, 'sqlite3.db')); info['operator'] = op
+            cls = 'db:raw' if op.startswith('raw:') else 'db:schema' if op == 'sql:schema' else 'db:unchanged' if op == 'sql:noop' else 'object:altered'
     except Exception as e:
         part.inconc('mutation failed: %r' % (e,)); shutil.rmtree(d, ignore_errors=True); return
     cls = 'file/' + cls
     x = new_exec(env, d, conf=conf); mon = Monitor(x, env['ck'], part); used = 0
     try: used = recovery_probe(mon, env, cls)
     except Died as e:
-        part.violation(f'{e.fn}|{cls}|{e.kind()}@{e.where()}', f'after a mutation of the stored files ({cls}) the library terminated the host process inside {e.fn} ({e.kind()})',
-                       {'mode': 'file', 'seed': env['seed'], 'index': idx, 'cfg': env['cfg'], 'backend': be, 'mutation': cls, 'info': info, 'note': e.note, 'stderr_tail': (e.stderr_tail or '')[-2500:], 'trace_tail': [clip(q, 80) for q in mon.reqs[-6:]]})
+        part.violation(f'{e.fn}|{cls}|{death_sig(e)}', f'after a mutation of the stored files ({cls}) the library terminated the host process inside {e.fn} ({e.kind()})',
+                       {'mode': 'file', 'seed': env['seed'], 'index': item or idx, 'cfg': env['cfg'], 'backend': be, 'mutation': cls, 'info': info, 'note': e.note, 'stderr_tail': (e.stderr_tail or '')[-2500:], 'trace_tail': [clip(q, 80) for q in mon.reqs[-6:]]})
         part.count('deaths')
     except Hang:
         part.count('hangs'); part.violation(f'{(mon.reqs[-1] or {}).get("fn")}|{cls}|hang', 'a probe call did not return within %d s' % TIMEOUT, {'mode': 'file', 'seed': env['seed'], 'index': idx, 'cfg': env['cfg'], 'backend': be, 'mutation': cls, 'info': info})
     finally: x.kill()
-    part.case(cls, nontrivial=True); part.count('file_cases'); part.count('file_probe_calls', len(mon.reqs)); part.count('file_keys_used', used); part.count('mut:' + cls.split(':')[0])
-    if len(part.samples) < 2 and idx % 7 == 0: part.samples.append({'mode': 'file', 'index': idx, 'backend': be, 'mutation': cls, 'info': {k: v for k, v in info.items() if k != 'hex'}, 'probe_calls': len(mon.reqs)})
+    part.case((cls, info.get('operator')), nontrivial=True); part.count('file_cases'); part.count('file_probe_calls', len(mon.reqs)); part.count('file_keys_used', used); part.count('mut:' + cls.split(':')[0])
+    if len(part.samples) < 2 and not item and idx % 7 == 0: part.samples.append({'mode': 'file', 'index': idx, 'backend': be, 'mutation': cls, 'info': {k: v for k, v in info.items() if k != 'hex'}, 'probe_calls': len(mon.reqs)})
     shutil.rmtree(d, ignore_errors=True)
 
 def mutate_dir(r, d, toks, be):
@@ -463,3 +856,61 @@ def mutate_dir(r, d, toks, be):
     if be == 'file' and objs:
         other = [t for t in toks if t != tok][0]; n = r.choice(objs); shutil.copy(os.path.join(tok, n), os.path.join(other, n)); return 'object-moved-to-other-token'
     open(os.path.join(d, 'tokens', 'stray-file'), 'wb').write(b'x'); return 'stray-file-in-tokendir'
+
+# ------------------------------------------------------------------------------------------------ driver
+def worker(job):
+    part = Part(); env = dict(job['env']); env['ck'] = CK(env['hdr']); env['scratch'] = os.path.join(env['scratch'], 'w%d' % os.getpid()); os.makedirs(env['scratch'], exist_ok=True)
+    for item in job['items']:
+        try:
+            if job['mode'] == 'grid':
+                fam, lo, hi = item; cells = grid_cells(fam, env['ck'], env['seed'], env['scale'])[lo:hi]; run_cells(env, fam, cells, part)
+            elif job['mode'] == 'api': run_sequence(env, item, part)
+            else: file_case(env, item, part)
+        except (Died, Hang) as e: part.inconc('executor lost outside a monitored call: %r' % (e,))
+    return part
+
+def run(ctx):
+    ctx.rule = ('(a) API fuzz: per sequence a fresh executor on a clone of a golden token directory (2 tokens, every object kind, user logged in, stale handles), then N calls drawn over all 68 entry points, '
+                'each a well-formed base request with 0-3 hostile edits (handles, lengths, buffers, templates, mechanism parameters, key/mechanism mismatches), then a well-formed epilogue; '
+                '(b) file fuzz: one structure-aware mutation of object file / token.object / generation / SQLite db / softhsm2.conf / directory layout per case, then a fixed recovery probe in a fresh executor. '
+                'One evaluation = one hostile-sequence call or one mutated-file case; distinct = (entry point, hostile-input tag) pairs actually sent + distinct file-mutation classes; '
+                'violations: Died (ASan, signal, exit/abort/assert), UBSan null/bounds/object-size, non-CKR return value, reproduced hang')
+    cfgs = ctx.q([('asan', 'file', 0.9), ('asan', 'db', 0.1)], [('asan', 'file', 0.4), ('asan', 'db', 0.25), ('botan', 'file', 0.2), ('botan', 'db', 0.15)])
+    nseq = ctx.q(2000, 60000); nfile = ctx.q(1500, 40000); ncalls = 30; scale = ctx.q(1.0, 3.0)
+    if os.environ.get('C17_SCALE'): f = float(os.environ['C17_SCALE']); nseq = int(nseq * f); nfile = int(nfile * f)
+    ctx.need(*sorted({c for c, _, _ in cfgs}))
+    if ctx.replay: return replay(ctx)
+    jobs = []; seq0 = ctx.seed * 10000019; file0 = 0
+    for cfg, be, share in cfgs:
+        base = dict(paths=ctx.paths, hdr=ctx.paths[cfg]['hdr'], cfg=cfg, backend=be, scratch=ctx.scratch, ncalls=ncalls, seed=ctx.seed); base['ck'] = ctx.ck
+        ga = ctx.dir(f'golden-api-{cfg}-{be}'); build_golden(dict(base, golden=ga), ga); gf = ctx.dir(f'golden-file-{cfg}-{be}'); build_golden(dict(base, golden=gf), gf, small=True)
+        del base['ck']
+        if share >= 0.1:
+            for fam in FAMILIES:
+                ncell = len(grid_cells(fam, ctx.ck, ctx.seed, scale)); b = BATCH[fam]
+                for lo in range(0, ncell, b * 4): jobs.append(dict(mode='grid', env=dict(base, golden=ga, scale=scale), items=[(fam, i, min(i + b, ncell, lo + b * 4)) for i in range(lo, min(lo + b * 4, ncell), b)]))
+        n = int(nseq * share); items = list(range(seq0, seq0 + n)); seq0 += n
+        for i in range(0, n, 20): jobs.append(dict(mode='api', env=dict(base, golden=ga), items=items[i:i + 20]))
+        dirs = directed_items(dict(base, golden=gf, ck=ctx.ck)) if share >= 0.1 else []
+        n = max(0, int(nfile * share) - len(dirs)); items = dirs + list(range(file0, file0 + n)); file0 += n
+        for i in range(0, n, 12): jobs.append(dict(mode='file', env=dict(base, golden=gf), items=items[i:i + 12]))
+    random.Random(ctx.seed).shuffle(jobs)
+    for part in pmap(worker, jobs, ctx.nproc): ctx.merge(part)
+    ctx.extra['entry_points_called'] = len({k[0] for k in ctx.distinct if isinstance(k, tuple)} | set())
+    ctx.extra['configs'] = ['%s/%s' % (c, b) for c, b, _ in cfgs]
+    ctx.assumptions += ['every pointer argument references a block of at least the stated size (lengths only lie downwards; enforced by the executor too); NULL only for size queries, pTemplate with count 0, pPin/pData/pParameter with length 0',
+                        'UBSan categories other than null-pointer load/store/member access, bounds and object-size are observations (listed under observations), not violations',
+                        'where an abort has no sanitizer stack (exit() from the exception barrier) the death location is "?"',
+                        'key generation sizes are capped (RSA <= 1024, DSA/DH parameter generation 512) to bound run time; the size checks themselves are probed with out-of-range values',
+                        'thread-level hostility (concurrent calls) belongs to C18; file mutations are applied while no process has the token open']
+
+def replay(ctx):
+    w = json.load(open(ctx.replay))['witness']; cfg = w['cfg']; be = w['backend']; ctx.need(cfg)
+    env = dict(paths=ctx.paths, hdr=ctx.paths[cfg]['hdr'], ck=ctx.ck, cfg=cfg, backend=be, scratch=ctx.scratch, ncalls=w.get('ncalls', 30), seed=w['seed'])
+    g = ctx.dir('golden'); env['golden'] = g; build_golden(env, g, small=(w['mode'] == 'file')); part = Part()
+    if w['mode'] == 'api': run_sequence(env, w['seed'], part)
+    else: file_case(env, tuple(w['index']) if isinstance(w['index'], list) else w['index'], part)
+    ctx.merge(part); ctx.case('replay', True); ctx.case('replay2', True)
+    for k, (what, wit) in part.viol.items(): print('REPLAY reproduced:', k); print((wit or {}).get('stderr_tail', '')[-1500:])
+
+if __name__ == '__main__': main('C17', run, min_evaluations=20000, min_distinct=300)
